@@ -7,7 +7,7 @@ These implement the knapsack-based pricing subproblem and simplex tableau operat
 
 from collections.abc import Sequence
 
-__all__ = ["knapsack_pricing", "greedy_knapsack", "simplex_phase"]
+__all__ = ["knapsack_pricing", "greedy_knapsack", "simplex_phase", "drive_out_artificials"]
 
 
 def knapsack_pricing(
@@ -155,3 +155,36 @@ def simplex_phase(
         basis_set.discard(basis[leave])
         basis[leave] = enter
         basis_set.add(enter)
+
+
+def drive_out_artificials(
+    tab: list[list[float]],
+    basis: list[int],
+    n_orig: int,
+    n_rows: int,
+    eps: float,
+) -> None:
+    """Pivot artificial variables that are still basic (at level zero) after phase 1 out of the basis.
+
+    Without this, phase 2 (which only prices the first n_orig columns) can make such an
+    artificial positive again, i.e. return a "solution" that violates its row.
+    Rows with no usable pivot are redundant and are left alone.
+    """
+    n_cols = len(tab[0])
+    for i in range(n_rows):
+        if basis[i] < n_orig:
+            continue
+        in_basis = set(basis)
+        enter = next((j for j in range(n_orig) if j not in in_basis and abs(tab[i][j]) > eps), -1)
+        if enter == -1:
+            continue
+        piv = tab[i][enter]
+        for j in range(n_cols):
+            tab[i][j] /= piv
+        for r in range(n_rows + 1):
+            if r != i:
+                factor = tab[r][enter]
+                if abs(factor) > eps:
+                    for j in range(n_cols):
+                        tab[r][j] -= factor * tab[i][j]
+        basis[i] = enter
